@@ -1,8 +1,14 @@
 """Which families feed which monitors under which property id, with budgets per tier."""
 import monitors as M
 from fam_flow import FlowFamily
+from fam_actions import ActionsFamily
+from fam_store import StoreFamily
+from fam_model import ModelFamily
 
 FLOW = FlowFamily()
+ACTIONS = ActionsFamily()
+STORE = StoreFamily()
+MODEL = ModelFamily()
 
 QUIESCENT = ['cur-fifo', 'cur-chaos', 'cur-chaos-lifo', 'mt2-chaos', 'mt4-chaos', 'mt8']
 ALLSCHED = QUIESCENT + ['cur-inline', 'mt2-inline']
@@ -13,6 +19,74 @@ def part(name, family, quick, thorough, monitors=(), judge=False, props=None, **
 
 
 PROPS = {
+    'C20': {
+        'level': 'exploration',
+        'rule': 'distinct generated workflow values with at least three tree nodes (all optional fields, unicode / YAML-hostile text, nested catches, timeouts, setup; 30% with an injected duplicate node id)',
+        'parts': [part('models', MODEL, 2000, 60000, judge=True, props=['C20'], chunk=150)],
+    },
+    'C10': {
+        'level': 'exploration',
+        'rule': 'distinct operation sequences (60 ops over one collection, every record field a distinct random value), each applied to the in-memory and the SQLite back end',
+        'parts': [part('ops', STORE, 300, 10000, judge=True, props=['C10'], nops=60, chunk=20)],
+    },
+    'C01': {
+        'level': 'exploration',
+        'rule': 'distinct (model, inputs) pairs with at least one branch list or three acts, each run under 2-3 schedules / client modes; every quiescent point of every run is evaluated',
+        'parts': [
+            part('plain', FLOW, 900, 12000, monitors=[M.mon_c01], props=['C01'], sub='plain', variants=3, scheds=ALLSCHED, snap='live'),
+            part('mixed', FLOW, 150, 2000, monitors=[M.mon_c01], props=['C01'], sub='mixed', variants=2, scheds=QUIESCENT, snap='live'),
+            part('loop', FLOW, 60, 600, monitors=[M.mon_c01], props=['C01'], sub='loop', variants=2, scheds=QUIESCENT, snap='live'),
+        ],
+    },
+    'C02': {
+        'level': 'exploration',
+        'rule': 'distinct (model, action script / inputs) cases; every task state write of every run is checked',
+        'parts': [
+            part('matrix', ACTIONS, 1200, 20000, monitors=[M.mon_c02], props=['C02'], sub='matrix'),
+            part('duel', ACTIONS, 500, 10000, monitors=[M.mon_c02], props=['C02'], sub='duel'),
+            part('twins', ACTIONS, 300, 6000, monitors=[M.mon_c02], props=['C02'], sub='twins'),
+            part('plain', FLOW, 300, 6000, monitors=[M.mon_c02], props=['C02'], sub='plain', variants=2, scheds=ALLSCHED, snap='live'),
+            part('loop', FLOW, 40, 400, monitors=[M.mon_c02], props=['C02'], sub='loop', variants=2, scheds=QUIESCENT, snap='live'),
+        ],
+    },
+    'C03': {
+        'level': 'exploration',
+        'rule': 'distinct (model, action script / inputs) cases; parent completions, process/root agreement at every snapshot and event multiplicity are checked on every run',
+        'parts': [
+            part('matrix', ACTIONS, 900, 15000, monitors=[M.mon_c03], props=['C03'], sub='matrix'),
+            part('duel', ACTIONS, 500, 10000, monitors=[M.mon_c03], props=['C03'], sub='duel'),
+            part('plain', FLOW, 500, 8000, monitors=[M.mon_c03], props=['C03'], sub='plain', variants=2, scheds=ALLSCHED),
+            part('mixed', FLOW, 100, 1500, monitors=[M.mon_c03], props=['C03'], sub='mixed', variants=2, scheds=QUIESCENT),
+            part('loop', FLOW, 60, 600, monitors=[M.mon_c03], props=['C03'], sub='loop', variants=2, scheds=QUIESCENT),
+        ],
+    },
+    'C08': {
+        'level': 'exploration',
+        'rule': 'distinct (model, action script / inputs) cases; every generated and delivered message of every run is checked',
+        'parts': [
+            part('plain', FLOW, 700, 10000, monitors=[M.mon_c08], props=['C08'], sub='plain', variants=3, scheds=ALLSCHED, snap='live'),
+            part('matrix', ACTIONS, 700, 12000, monitors=[M.mon_c08], props=['C08'], sub='matrix'),
+            part('duel', ACTIONS, 300, 6000, monitors=[M.mon_c08], props=['C08'], sub='duel'),
+            part('loop', FLOW, 40, 400, monitors=[M.mon_c08], props=['C08'], sub='loop', variants=2, scheds=QUIESCENT, snap='live'),
+        ],
+    },
+    'C11': {
+        'level': 'exploration',
+        'rule': 'distinct (model, action script / inputs) cases; live dump vs store rows compared at every quiescent point',
+        'parts': [
+            part('plain', FLOW, 500, 8000, monitors=[M.mon_c11], props=['C11'], sub='plain', variants=2, scheds=QUIESCENT, snap='rows'),
+            part('matrix', ACTIONS, 500, 8000, monitors=[M.mon_c11], props=['C11'], sub='matrix'),
+            part('sqlite', FLOW, 60, 800, monitors=[M.mon_c11], props=['C11'], sub='plain', variants=1, scheds=['cur-fifo', 'cur-chaos'], snap='rows', store='sqlite'),
+        ],
+    },
+    'C05': {
+        'level': 'exploration',
+        'rule': 'distinct (model, action script) pairs of the action matrix plus distinct (acts, raced position, action, threads, workers, pause) twin-race configurations',
+        'parts': [
+            part('matrix', ACTIONS, 1200, 20000, judge=True, props=['C05'], sub='matrix'),
+            part('twins', ACTIONS, 1500, 40000, judge=True, props=['C05'], sub='twins'),
+        ],
+    },
     'C04': {
         'level': 'exploration',
         'rule': 'distinct (model, a, b) triples of the bounded grammar with at least one branch list or three acts; each is run under 2-3 schedules and branch permutations',
